@@ -75,7 +75,7 @@ def make_newick(shape, n, rng):
     return items[0].rsplit(":", 1)[0] + ";"
 
 
-def make_sequences(n, sites, rng, style):
+def make_sequences(n, sites, rng, style, dup=0):
     """Random 4-state data; 'style' controls how conserved the columns are.  'clade': the
     first half of the taxa (a clade in the caterpillar and balanced shapes) carry identical
     sequences, the rest is random, so that one clade keeps large partials while the other
@@ -110,6 +110,9 @@ def make_sequences(n, sites, rng, style):
         if rng.bernoulli(0.2):
             col[rng.randint(0, n - 1)] = "-"
         cols.append(col)
+    if dup:
+        # repeated columns: patterns with weight > 1 (appended after all other draws)
+        cols = cols + [list(cols[(3 * j) % len(cols)]) for j in range(dup)]
     return ["".join(cols[k][i] for k in range(sites)) for i in range(n)]
 
 
@@ -131,21 +134,35 @@ def build_spec(recipe):
     rng = Rng(recipe["data_seed"])
     n, sites = recipe["taxa"], recipe["sites"]
     newick = make_newick(recipe["shape"], n, rng)
-    seqs = make_sequences(n, sites, rng, recipe["style"])
+    seqs = make_sequences(n, sites, rng, recipe["style"], recipe.get("dup_columns", 0))
     base = [math.exp(0.6 * rng.normal()) * 0.05 for _ in range(2 * n - 3)]
     names = ["t%d" % i for i in range(n)]
+    if recipe.get("clock"):
+        # rooted time tree (node heights from ratios), branch lengths = clock rate x durations
+        # ratios that keep every duration within a few orders of magnitude of the root height (a
+        # branch of 1e-12 expected substitutions loses its off-diagonal transition probabilities to
+        # the cancellation in 1 - exp(-x) at any tree size: that is not the underflow C03 is about)
+        lo, hi = {"caterpillar": (1.0 - 3.0 / n, 1.0 - 0.5 / n), "balanced": (0.5, 0.9)}.get(recipe["shape"], (0.8, 0.97))
+        ratios = [round(lo + (hi - lo) * rng.random(), 6) for _ in range(n - 2)]
+        tree = {"id": "tree", "type": "ReparameterizedTimeTreeModel", "newick": newick,
+                "taxa": {"id": "taxa", "type": "Taxa", "taxa": [{"id": x, "type": "Taxon", "attributes": {"date": 0.0}} for x in names]},
+                "ratios": {"id": "ratios", "type": "Parameter", "tensor": ratios},
+                "root_height": {"id": "root_height", "type": "Parameter", "tensor": [recipe.get("root_height", 1.0)]}}
+        base = None
+    else:
+        tree = {"id": "tree", "type": "UnRootedTreeModel", "newick": newick, "taxa": "taxa",
+                "branch_lengths": {"id": "blens", "type": "Parameter", "tensor": base}}
     if recipe["model"] == "JC69":
         subst = {"id": "substmodel", "type": "JC69"}
     else:
         subst = {"id": "substmodel", "type": "HKY", "kappa": {"id": "kappa", "type": "Parameter", "tensor": [recipe.get("kappa", 3.0)]},
                  "frequencies": {"id": "freqs", "type": "Parameter", "tensor": recipe.get("freqs", [0.3, 0.2, 0.15, 0.35])}}
-    spec = [
-        {"id": "taxa", "type": "Taxa", "taxa": [{"id": x, "type": "Taxon"} for x in names]},
+    like_extra = {"branch_model": {"id": "clock", "type": "StrictClockModel", "tree_model": "tree", "rate": {"id": "rate", "type": "Parameter", "tensor": [1.0]}}} if recipe.get("clock") else {}
+    spec = ([{"id": "taxa", "type": "Taxa", "taxa": [{"id": x, "type": "Taxon"} for x in names]}] if not recipe.get("clock") else [tree]) + [
         {"id": "alignment", "type": "Alignment", "datatype": {"id": "data_type", "type": "NucleotideDataType"}, "taxa": "taxa",
          "sequences": [{"taxon": x, "sequence": s} for x, s in zip(names, seqs)]},
-        {"id": "like", "type": "TreeLikelihoodModel",
-         "tree_model": {"id": "tree", "type": "UnRootedTreeModel", "newick": newick, "taxa": "taxa",
-                        "branch_lengths": {"id": "blens", "type": "Parameter", "tensor": base}},
+        {"id": "like", "type": "TreeLikelihoodModel", **like_extra,
+         "tree_model": "tree" if recipe.get("clock") else tree,
          "site_model": _site_model(recipe),
          "substitution_model": subst,
          "site_pattern": {"id": "patterns", "type": "SitePattern", "alignment": "alignment"},
@@ -177,6 +194,10 @@ class Machine:
         self.twin_dic = freshlib.build(self.spec)
         self.twin = self.twin_dic["like"]
         self.twin.rescale = True
+        self.rooted = bool(recipe.get("clock"))
+        if self.rooted:
+            with torch.no_grad():
+                self.base = [float(x) for x in self.twin.tree_model.branch_lengths().reshape(-1).tolist()]
         self.postorder = [tuple(int(x) for x in tr) for tr in self.like.tree_model.postorder]
         self.n = recipe["taxa"]
         self.scales = [1.0]
@@ -196,7 +217,7 @@ class Machine:
             bl = np.asarray(self.base) * scale
             pi = self.recipe.get("freqs", [0.3, 0.2, 0.15, 0.35])
             if self.recipe.get("categories", 1) == 1 and not self.recipe.get("invariant"):
-                sl = refprune.site_log_likelihoods(self.postorder, self.n, bl, self.seqs, self.recipe["model"], kappa, pi)
+                sl = refprune.site_log_likelihoods(self.postorder, self.n, bl, self.seqs, self.recipe["model"], kappa, pi, rooted=self.rooted)
             else:
                 # category rates / proportions are inputs of the reference (they are property C05);
                 # the mixture over categories is done here in log space
@@ -207,7 +228,7 @@ class Machine:
                     with torch.no_grad():
                         self._cats = (sm.rates().reshape(-1).tolist(), sm.probabilities().reshape(-1).tolist())
                 rates, probs = self._cats
-                per = [refprune.site_log_likelihoods(self.postorder, self.n, bl * r, self.seqs, self.recipe["model"], kappa, pi) + math.log(p)
+                per = [refprune.site_log_likelihoods(self.postorder, self.n, bl * r, self.seqs, self.recipe["model"], kappa, pi, rooted=self.rooted) + math.log(p)
                        for r, p in zip(rates, probs) if p > 0]
                 sl = refprune._lse(np.stack(per), axis=0)
             self._ref_cache[key] = (float(np.sum(sl)), float(np.min(sl)))
@@ -217,7 +238,10 @@ class Machine:
         import torch
 
         base = torch.tensor(self.base, dtype=torch.float64)
-        if len(scales) == 1:
+        if self.rooted:
+            # the scale is the clock rate; a batch is a [S, 1] rate against one set of node heights
+            model_dic["rate"].tensor = torch.tensor([scales[0]] if len(scales) == 1 else [[s] for s in scales], dtype=torch.float64)
+        elif len(scales) == 1:
             model_dic["blens"].tensor = base * scales[0]
         else:
             model_dic["blens"].tensor = torch.stack([base * s for s in scales])
@@ -327,6 +351,10 @@ def find_scales(machine, kappa):
         b = band_of(mn)
         if out[b] is None or b == "normal":
             out[b] = s if out[b] is None else out[b]
+    # long (saturated) branches that still leave every site in the normal range: small and medium trees
+    sat = [s for s, mn in vals if band_of(mn) == "normal"]
+    if sat and out["normal"] is not None and sat[-1] > 20 * out["normal"]:
+        out["saturated"] = sat[-1]
     # refine a sub-normal point by bisection between a normal and an underflow scale
     if out["subnormal"] is None and out["normal"] is not None and out["underflow"] is not None:
         lo, hi = out["normal"], out["underflow"]
@@ -371,9 +399,20 @@ def generate(seed, index, tier):
     recipe = {"taxa": taxa, "sites": (k.randint(560, 700) if many_sites else k.randint(6, 24)) if taxa < 1000 else k.randint(4, 8), "shape": k.choice(["caterpillar", "balanced", "random"]) if style != "clade" else k.choice(["caterpillar", "balanced"]), "style": style,
               "model": k.choice(["JC69", "HKY"]), "tip_states": k.bernoulli(0.4), "data_seed": k.next64() & 0xFFFFFFFF, "kappa": round(k.uniform(0.5, 6.0), 3),
               "categories": k.choice([1, 1, 2, 4]), "shape_value": round(k.uniform(0.3, 2.0), 3), "invariant": k.choice([None, None, 0.2, 0.5])}
+    k2 = st["knobs2"]
+    if style in ("random", "conserved") and not many_sites and k2.bernoulli(0.4):
+        recipe["dup_columns"] = k2.randint(1, 6)
+    if style != "clade" and k2.bernoulli(0.3):
+        recipe["clock"] = True
+        recipe["root_height"] = 1.0
+        probe = Machine(recipe, EventLog())
+        # heights are linear in the root height (all tips at 0): put the shortest branch at ~0.01
+        recipe["root_height"] = round(k2.uniform(1.0, 3.0) * 0.01 / max(min(probe.base), 1e-300), 4)
+        if max(probe.base) / max(min(probe.base), 1e-300) > 1e4:
+            del recipe["clock"], recipe["root_height"]
     m = Machine(recipe, EventLog())
     sc = find_scales(m, recipe["kappa"])
-    avail = [b for b in ("normal", "subnormal", "deep", "underflow") if sc.get(b) is not None]
+    avail = [b for b in ("normal", "saturated", "subnormal", "deep", "underflow") if sc.get(b) is not None]
     w = st["workload"]
     ops = []
     n_ops = w.randint(6, 14)
